@@ -39,7 +39,11 @@ RULE = ("cases = generated 3-D arrays with independent axis sizes in 1..48 (stra
         "memory layouts, transpose/data_type options, raw files from an independent writer, conversions with invert / "
         "default and explicit names / overwrite refusal; every spelling of the four data_type values x extension x transpose, "
         "voxel counts 2**k-1, 2**k, 2**k+1 and the largest volumes, float32 representability boundaries, exact duplicate slabs, "
-        "names with extension-like tokens before the real extension, write-edit-rewrite histories); each case is written to .mrc, .rec and .em; non-trivial = "
+        "names with extension-like tokens before the real extension, write-edit-rewrite histories, relative names after chdir "
+        "into fresh directories (bare, ./, sub-directory, ../, a new cwd before every step) with absolute or relative inputs and "
+        "explicit relative outputs, stems ending in the extension's letters and paths with [ ] * ? spaces non-ASCII, flags given "
+        "as numpy bools / ints / 0-d arrays / float zeros, constant / all-zero / zero-stride volumes, read() and converter "
+        "outputs fed into write() and the converters); each case is written to .mrc, .rec and .em; non-trivial = "
         "at least 2 voxels, not constant, and not a cube (an axis permutation changes the shape or the values); "
         "distinct by digest of (shape, dtype, value class, layout, options, conversion scenario, first voxels)")
 ASSUMPTIONS = [
@@ -55,6 +59,8 @@ ASSUMPTIONS = [
     "3-D array, fed only with space group 1 and otherwise counted out of domain",
     "arrays in non-native byte order ('>f4') are outside the four listed dtypes (observed: written byte-garbled to .em) - not generated",
     "refusal to overwrite = any exception + output bytes unchanged",
+    "relative file names are judged at the path relative to the working directory at the time of the call",
+    "flags (transpose, invert, overwrite) given as any scalar with the same truth value count as on/off",
 ]
 
 CLASSES = ["generic", "degenerate", "edge48", "two_equal_axes", "f64_narrow", "special_floats", "int_extremes", "layouts",
